@@ -493,11 +493,19 @@ Definition prop_owner (name : bytes) : list string :=
   else if bytes_eqb name (bs "http-linearizable") then ["C16"%string]
   else [].
 
+(* C04: any {dddd} in the text that is not one of the 60 FAIM markers must make the read fail *)
+Fixpoint has_unknown_marker (s : bytes) : bool :=
+  match s with
+  | [] => false
+  | _ :: t => (is_marker_at s && negb (mem_bytes (firstn 6 s) faim_markers)) || has_unknown_marker t
+  end.
+
 Definition oracle_read (pid : bytes) (args : list bytes) : option bytes :=
   match args with
-  | [_; _; final; _; _] =>
+  | [_; _; final; text; _] =>
       if pid_is pid "C08" then (if bytes_eqb final (bs "eof") then None else Some (bs "reject"))
       else if pid_is pid "C03" then Some (bs "no-panic")
+      else if pid_is pid "C04" then (if has_unknown_marker text then Some (bs "reject") else None)
       else None
   | _ => None
   end.
